@@ -48,7 +48,7 @@ def native_obligations(prop="C08"):
             continue
         if o.get("tier") == "thorough":
             continue
-        if ".get_struct." in o["id"] or (".set_struct." in o["id"] and o["defines"].get("VERIF_ESZ") != 0):
+        if ".set_struct." in o["id"] and o["defines"].get("VERIF_ESZ") != 0:
             o["defines"]["VERIF_EXIT_COVER"] = 1     # the out-of-range branch ends in exit(1): must be reachable
         keep.append(o)
     return keep
